@@ -191,8 +191,15 @@ def run_shard(spec, R):
         if ok:
             first_out = np.array(out.img, copy=True)
             other_probe = image(rnd())
+            # (another probe of the campaign: other name, other physical size and place)
+            other_probe.name = "y"
+            other_probe.dimensions = [1.5, 0.5]
+            other_probe.origin = darsia.Coordinate(np.array([3.0, 4.5]))
             ok_o, _o = R.guarded("call", lambda: ca(other_probe), key=lambda e, w: key)
             if ok_o:
+                R.check(np.allclose(_o.dimensions, [1.5, 0.5]) and np.array_equal(np.asarray(_o.origin, float), [3.0, 4.5]) and _o.name == "y", "result_carries_probe_metadata",
+                        lambda: {**cfg, "what": "second probe of one analysis object, other name / dimensions / origin", "dimensions": [float(v) for v in _o.dimensions], "origin": np.asarray(_o.origin, float).tolist(), "name": _o.name},
+                        group="second_probe")
                 R.check(np.array_equal(np.asarray(out.img), first_out, equal_nan=True), "earlier_result_intact", cfg, key=key, group=grp)
             del trace[len(tr):]
         # a second analysis built from the same list of baselines behaves like the first
@@ -259,6 +266,19 @@ def run_shard(spec, R):
                     R.check(bool(np.all(outr.img == 0)), "baseline_maps_to_zero", lambda: {**cfg, "what": "probe object overwritten in place with the baseline", "max_abs": float(np.max(np.abs(outr.img)))},
                             key=key, group=grp)
                     R.count("probe_object_reused_with_new_content")
+        # ------------- the hue / saturation windowed reduction with non-default windows: value where hue and saturation
+        # both lie inside their windows, zero elsewhere
+        if rgb and it["id"] % 4 == 2:
+            win = {"hue lower bound": float(rng.uniform(0.0, 0.3)), "hue upper bound": float(rng.uniform(0.6, 1.0)),
+                   "saturation lower bound": float(rng.uniform(0.1, 0.5)), "saturation upper bound": float(rng.uniform(0.7, 1.0))}
+            xh = rng.random(shp + (3,))
+            okh, got_h = R.guarded("reduction", lambda: darsia.MonochromaticReduction(color="hsv", **win)(xh.copy()))
+            if okh:
+                hsv_ = skimage.color.rgb2hsv(xh)
+                m_ = (hsv_[..., 0] > win["hue lower bound"]) & (hsv_[..., 0] < win["hue upper bound"]) & (hsv_[..., 1] > win["saturation lower bound"]) & (hsv_[..., 1] < win["saturation upper bound"])
+                R.check(np.shape(got_h) == shp and np.array_equal(np.asarray(got_h), np.where(m_, hsv_[..., 2], 0.0)), "reduction_is_configured_window",
+                        lambda: {**cfg, "windows": win, "pixels_differing": int(np.sum(np.asarray(got_h) != np.where(m_, hsv_[..., 2], 0.0)))}, group="hsv")
+                R.count("hsv_windows")
         # ------------- a real restoration stage is the configured method with the configured parameters (the
         # documented wrappers of scikit-image's total-variation denoisers)
         if use_real and it["res"]:
